@@ -484,6 +484,8 @@ class Judge:
     def feed(self, op, line):
         import re
         w = op.split()
+        if w[0] in ("obsoff", "obson"):
+            return None if line == "ok" else "harness rejected the operation"
         if w[0] in ("fault", "faultfrom"):
             self.armed = int(w[1]) > 0
             return None if line == "ok" else "harness rejected the operation"
@@ -629,7 +631,7 @@ def safe(ops, mode):
     for op in ops:
         w = op.split()
         try:
-            if w[0] in ("fault", "faultfrom"):
+            if w[0] in ("fault", "faultfrom", "obsoff", "obson"):
                 continue
             if w[0] in ("end", "huge", "hugeseq"):
                 ideal = None
